@@ -51,6 +51,24 @@
 //!   random   – seeded programs (length ≤ 14 / ≤ 30) mixing all sources, edits, prefixes, media
 //!              layouts, add_transceiver, and (1 in 12 fresh ones) exhausted ports.
 //!   Pseudo operations `gather`, `wait_connected`, `add_transceiver` are set-up and never judged.
+//!   concurrent – (classes `conc_enum`, `conc_random`) a sequential prefix followed by ONE step in
+//!              which two (thorough: up to three) calls overlap.  Schedules: `poll_first` (every
+//!              call but the last is polled exactly once by hand, the last call then runs to
+//!              completion, then the parked ones are driven to completion – deterministic),
+//!              `join` (all futures joined on one task of the multi-thread runtime) and, only
+//!              with `--conc-spawn`, `spawn` (one task per call).  ORACLE for the step = linearizability against
+//!              the same FSM (fn `judge_concurrent`): the Ok/Err results and the final
+//!              `signaling_state()` must be what SOME sequential order of the overlapping calls
+//!              prescribes (a call that returned Ok must be allowed at its place in that order and
+//!              moves the machine; a call that returned Err moves nothing); a call that returned
+//!              Err must not leave its description stored; if every call returned Err the whole
+//!              snapshot is unchanged.  States seen while calls are in flight are not judged.
+//!              A concurrent program is non-trivial only when at least one of the overlapping
+//!              rustrtc futures really returned `Pending` (counted by a poll wrapper).
+//!   keys: concurrent_forbidden_ok:calls=a+b,state=..,results=..   (no order allows the Ok results)
+//!         concurrent_state_mismatch:calls=..,state=..,results=..,got=..
+//!         concurrent_err_left_description:call=..,with=..,state=..,err=..
+//!         concurrent_err_changed_state:calls=..,state=..
 
 use crate::common::*;
 use rustrtc::{
@@ -59,6 +77,11 @@ use rustrtc::{
 };
 use serde_json::{Value, json};
 use std::collections::BTreeMap;
+use std::future::Future;
+use std::pin::Pin;
+use std::sync::Arc;
+use std::sync::atomic::{AtomicU32, Ordering};
+use std::task::{Context, Poll};
 use std::time::Duration;
 
 // ------------------------------------------------------------------ the oracle FSM
@@ -574,6 +597,14 @@ fn apply_edit(d: &mut SessionDescription, edit: &str) {
                 ));
             }
         }
+        // (concurrent programs only, see CONC_EDITS) no connection address at all: in RTP/SRTP mode
+        // the description is applied without starting the direct transport
+        "no_conn" => {
+            d.session.connection = None;
+            for m in &mut d.media_sections {
+                m.connection = None;
+            }
+        }
         "no_ice" => for_all_attrs(d, |attrs| {
             attrs.retain(|a| a.key != "ice-ufrag" && a.key != "ice-pwd")
         }),
@@ -837,6 +868,363 @@ fn err_class(e: &RtcError) -> &'static str {
     }
 }
 
+// ------------------------------------------------------------------ overlapping calls
+
+/// Counts how often the wrapped *rustrtc* future returned `Pending` (the measure of "this call
+/// really suspended while another call could run").
+struct CountPending<F> {
+    inner: Pin<Box<F>>,
+    pending: Arc<AtomicU32>,
+}
+
+impl<F: Future> Future for CountPending<F> {
+    type Output = F::Output;
+    fn poll(mut self: Pin<&mut Self>, cx: &mut Context<'_>) -> Poll<F::Output> {
+        let r = self.inner.as_mut().poll(cx);
+        if r.is_pending() {
+            self.pending.fetch_add(1, Ordering::Relaxed);
+        }
+        r
+    }
+}
+
+type CallFut = Pin<Box<dyn Future<Output = Result<(), RtcError>> + Send>>;
+
+/// One API call as a future that has not been polled yet.  The synchronous calls
+/// (set_local_description, close) run inside the first poll.
+fn call_future(pc: &PeerConnection, call: Call, desc: Option<SessionDescription>, pending: Arc<AtomicU32>) -> CallFut {
+    let pc = pc.clone();
+    match call {
+        Call::CreateOffer => Box::pin(async move {
+            // same lock-order guard as `create_offer_guarded`; its sleep is not counted
+            if pc.config().transport_mode == TransportMode::Srtp && pc.remote_description().is_some() {
+                tokio::time::sleep(Duration::from_millis(4)).await;
+            }
+            let f = CountPending { inner: Box::pin(pc.create_offer()), pending };
+            f.await.map(|_| ())
+        }),
+        Call::CreateAnswer => Box::pin(async move {
+            let f = CountPending { inner: Box::pin(pc.create_answer()), pending };
+            f.await.map(|_| ())
+        }),
+        Call::SetLocal(_) => Box::pin(async move {
+            match desc {
+                Some(d) => pc.set_local_description(d),
+                None => Err(RtcError::Internal("harness: no description".into())),
+            }
+        }),
+        Call::SetRemote(_) => Box::pin(async move {
+            match desc {
+                Some(d) => {
+                    let f = CountPending { inner: Box::pin(pc.set_remote_description(d)), pending };
+                    f.await
+                }
+                None => Err(RtcError::Internal("harness: no description".into())),
+            }
+        }),
+        Call::Close => Box::pin(async move {
+            pc.close();
+            Ok(())
+        }),
+    }
+}
+
+async fn poll_once(f: &mut CallFut) -> Option<Result<(), RtcError>> {
+    std::future::poll_fn(|cx| {
+        Poll::Ready(match f.as_mut().poll(cx) {
+            Poll::Ready(r) => Some(r),
+            Poll::Pending => None,
+        })
+    })
+    .await
+}
+
+/// Drive every future that has no result yet, all joined on the current task.
+async fn drive_rest(futs: &mut [CallFut], results: &mut [Option<Result<(), RtcError>>]) -> bool {
+    let todo: Vec<(usize, &mut CallFut)> = futs
+        .iter_mut()
+        .enumerate()
+        .filter(|(i, _)| results[*i].is_none())
+        .collect();
+    if todo.is_empty() {
+        return true;
+    }
+    let joined = futures::future::join_all(todo.into_iter().map(|(i, f)| async move { (i, f.await) }));
+    match tokio::time::timeout(CALL_WATCHDOG, joined).await {
+        Ok(v) => {
+            for (i, r) in v {
+                results[i] = Some(r);
+            }
+            true
+        }
+        Err(_) => false,
+    }
+}
+
+/// How long the last call of a `poll_first` step may run *alone* before the parked calls are
+/// driven as well (a parked call may hold something the running one waits for).
+const SOLO_WATCHDOG: Duration = Duration::from_secs(3);
+
+/// Runs the overlapping calls under the given schedule.  `None` = watchdog (inconclusive).
+/// `degraded` is set when the deterministic schedule had to fall back to joint driving.
+async fn run_schedule(
+    schedule: &str,
+    mut futs: Vec<CallFut>,
+    degraded: &mut bool,
+) -> Option<Vec<Result<(), RtcError>>> {
+    let n = futs.len();
+    let mut results: Vec<Option<Result<(), RtcError>>> = (0..n).map(|_| None).collect();
+    match schedule {
+        "spawn" => {
+            let handles: Vec<_> = futs.drain(..).map(tokio::spawn).collect();
+            for (i, h) in handles.into_iter().enumerate() {
+                match tokio::time::timeout(CALL_WATCHDOG, h).await {
+                    Ok(Ok(r)) => results[i] = Some(r),
+                    _ => return None,
+                }
+            }
+        }
+        "join" => {
+            if !drive_rest(&mut futs, &mut results).await {
+                return None;
+            }
+        }
+        _ => {
+            // poll_first: park every call but the last after exactly one poll …
+            for i in 0..n.saturating_sub(1) {
+                results[i] = poll_once(&mut futs[i]).await;
+            }
+            // … run the last one to completion on its own …
+            if n > 0 {
+                match tokio::time::timeout(SOLO_WATCHDOG, &mut futs[n - 1]).await {
+                    Ok(r) => results[n - 1] = Some(r),
+                    Err(_) => *degraded = true,
+                }
+            }
+            // … then drive the parked ones to completion.
+            if !drive_rest(&mut futs, &mut results).await {
+                return None;
+            }
+        }
+    }
+    results.into_iter().collect()
+}
+
+/// Which slot a call's description goes to: Some(true) = local, Some(false) = remote.
+fn slot_of(call: Call) -> Option<bool> {
+    match call {
+        Call::SetLocal(_) => Some(true),
+        Call::SetRemote(_) => Some(false),
+        _ => None,
+    }
+}
+
+fn slot_holds(stored: &Option<SessionDescription>, d: &SessionDescription, local: bool, mode: &TransportMode) -> bool {
+    match stored {
+        None => false,
+        Some(s) if local => strip_gather(s, mode) == strip_gather(d, mode),
+        Some(s) => s == d,
+    }
+}
+
+fn permutations(n: usize) -> Vec<Vec<usize>> {
+    fn rec(cur: &mut Vec<usize>, n: usize, out: &mut Vec<Vec<usize>>) {
+        if cur.len() == n {
+            out.push(cur.clone());
+            return;
+        }
+        for i in 0..n {
+            if !cur.contains(&i) {
+                cur.push(i);
+                rec(cur, n, out);
+                cur.pop();
+            }
+        }
+    }
+    let mut out = vec![];
+    rec(&mut vec![], n, &mut out);
+    out
+}
+
+struct ConcCall {
+    call: Call,
+    desc: Option<SessionDescription>,
+    result: Result<(), RtcError>,
+    pending: u32,
+}
+
+/// `Err(Internal)` is the open known finding "transport set-up fails after the commit point":
+/// such a call may or may not have taken effect; the sequential programs report it under its own
+/// keys, the concurrency oracle does not report it a second time under new ones.
+fn is_internal(r: &Result<(), RtcError>) -> bool {
+    matches!(r, Err(RtcError::Internal(_)))
+}
+
+/// Linearizability of one concurrent step against `fsm`.  Returns the violations and, for the
+/// trace, every sequential order that is consistent with the observed results (with the final
+/// state it prescribes).
+fn judge_concurrent(
+    st: St,
+    calls: &[ConcCall],
+    before: &Snap,
+    after: &Snap,
+    mode: &TransportMode,
+    aux: &mut Vec<String>,
+) -> (Vec<(String, String, Value)>, Vec<Value>) {
+    let n = calls.len();
+    let got = St::of(after.state);
+    let mut sorted: Vec<usize> = (0..n).collect();
+    sorted.sort_by_key(|&i| calls[i].call.name());
+    let names = sorted.iter().map(|&i| calls[i].call.name()).collect::<Vec<_>>().join("+");
+    let results = sorted
+        .iter()
+        .map(|&i| if calls[i].result.is_ok() { "ok" } else { "err" })
+        .collect::<Vec<_>>()
+        .join("+");
+    let mut violations = vec![];
+
+    // every sequential order × every admissible reading of the results
+    let mut consistent: Vec<(Vec<usize>, Vec<bool>, St)> = vec![];
+    for order in permutations(n) {
+        let wild: Vec<usize> = (0..n).filter(|&i| is_internal(&calls[i].result)).collect();
+        for mask in 0..(1u32 << wild.len()) {
+            let applied: Vec<bool> = (0..n)
+                .map(|i| match wild.iter().position(|&w| w == i) {
+                    Some(b) => mask & (1 << b) != 0,
+                    None => calls[i].result.is_ok(),
+                })
+                .collect();
+            let mut s = st;
+            let mut ok = true;
+            for &i in &order {
+                if applied[i] {
+                    match fsm(s, calls[i].call) {
+                        Some(next) => s = next,
+                        None => {
+                            ok = false;
+                            break;
+                        }
+                    }
+                }
+                // a call that returned Err moves nothing (and is always acceptable: the statement
+                // never says that allowed calls succeed)
+            }
+            if ok {
+                consistent.push((order.clone(), applied, s));
+            }
+        }
+    }
+    let orders_json: Vec<Value> = consistent
+        .iter()
+        .map(|(o, _, s)| json!({"order": o.iter().map(|&i| calls[i].call.name()).collect::<Vec<_>>(), "final": s.name()}))
+        .collect();
+
+    if consistent.is_empty() {
+        violations.push((
+            format!("concurrent_forbidden_ok:calls={names},state={},results={results}", st.name()),
+            format!(
+                "overlapping calls {names} issued in state {} returned {results}: no sequential order of them is allowed by the JSEP machine (some call that the machine forbids in every order returned Ok)",
+                st.name()
+            ),
+            json!({"state_after": got.name()}),
+        ));
+    } else if !consistent.iter().any(|(_, _, s)| *s == got) {
+        let want: Vec<&str> = {
+            let mut w: Vec<&str> = consistent.iter().map(|(_, _, s)| s.name()).collect();
+            w.sort();
+            w.dedup();
+            w
+        };
+        violations.push((
+            format!("concurrent_state_mismatch:calls={names},state={},results={results},got={}", st.name(), got.name()),
+            format!(
+                "overlapping calls {names} issued in state {} returned {results}; every sequential order consistent with these results ends in {:?} but signaling_state() is {}",
+                st.name(),
+                want,
+                got.name()
+            ),
+            json!({"consistent_orders": orders_json}),
+        ));
+    }
+
+    // Err-atomicity, description slots: a refused call must not leave its description stored.
+    for i in 0..n {
+        let c = &calls[i];
+        let (Err(e), Some(local), Some(d)) = (&c.result, slot_of(c.call), &c.desc) else { continue };
+        if is_internal(&c.result) {
+            continue;
+        }
+        let (slot_after, slot_before) = if local { (&after.local, &before.local) } else { (&after.remote, &before.remote) };
+        if !slot_holds(slot_after, d, local, mode) || slot_holds(slot_before, d, local, mode) {
+            continue;
+        }
+        let explained = (0..n).any(|j| {
+            j != i
+                && slot_of(calls[j].call) == Some(local)
+                && (calls[j].result.is_ok() || is_internal(&calls[j].result))
+                && calls[j].desc.as_ref().map(|dj| slot_holds(&Some(dj.clone()), d, local, mode)).unwrap_or(false)
+        });
+        if explained {
+            continue;
+        }
+        let with = (0..n).filter(|&j| j != i).map(|j| calls[j].call.name()).collect::<Vec<_>>().join("+");
+        violations.push((
+            format!("concurrent_err_left_description:call={},with={with},state={},err={}", c.call.name(), st.name(), err_class(e)),
+            format!(
+                "{} overlapping with {with} in state {} returned Err({e}) but its description is now the stored {} description",
+                c.call.name(),
+                st.name(),
+                if local { "local" } else { "remote" }
+            ),
+            json!({"argument": desc_brief(&c.desc), "stored_before": desc_brief(slot_before), "stored_after": desc_brief(slot_after)}),
+        ));
+    }
+
+    // Err-atomicity, everything: if every call was refused, every order prescribes "no change".
+    if n > 0 && calls.iter().all(|c| c.result.is_err() && !is_internal(&c.result)) {
+        let mut benign = false;
+        let diffs = snap_diff(before, after, mode, &mut benign);
+        if !diffs.is_empty() {
+            let fields: Vec<String> = diffs.iter().map(|d| d.0.clone()).collect();
+            violations.push((
+                format!("concurrent_err_changed_state:calls={names},state={}", st.name()),
+                format!(
+                    "overlapping calls {names} in state {} all returned Err but these differ before/after: {}",
+                    st.name(),
+                    fields.join(", ")
+                ),
+                json!({"changed_fields": fields,
+                       "diff": diffs.iter().map(|(k, v)| json!({"field": k, "change": v})).collect::<Vec<_>>()}),
+            ));
+        }
+    }
+
+    // NOT a verdict (the statement speaks about stored descriptions only for refused calls):
+    // is the stored pair what the "last applied description" of some consistent order would be?
+    if violations.is_empty() {
+        let slot_ok = |local: bool, order: &[usize], applied: &[bool]| -> bool {
+            let last = order.iter().rev().find(|&&i| applied[i] && slot_of(calls[i].call) == Some(local) && calls[i].desc.is_some());
+            let (slot_after, slot_before) = if local { (&after.local, &before.local) } else { (&after.remote, &before.remote) };
+            match last {
+                Some(&i) => slot_holds(slot_after, calls[i].desc.as_ref().unwrap(), local, mode),
+                None => match (slot_after, slot_before) {
+                    (None, None) => true,
+                    (Some(a), Some(_)) => slot_holds(slot_before, a, local, mode),
+                    _ => false,
+                },
+            }
+        };
+        let any = consistent
+            .iter()
+            .filter(|(_, _, s)| *s == got)
+            .any(|(o, a, _)| slot_ok(true, o, a) && slot_ok(false, o, a));
+        if !any {
+            aux.push(format!("{names}@{} results={results}", st.name()));
+        }
+    }
+    (violations, orders_json)
+}
+
 fn call_of(op: &Value) -> Option<Call> {
     let ty = sdp_type_of(op["type"].as_str().unwrap_or(""));
     match op["op"].as_str()? {
@@ -906,6 +1294,7 @@ async fn run_scenario(sc: Value) -> Outcome {
     let ops = sc["ops"].as_array().unwrap_or(&empty).clone();
     let mut ok_transitions = 0u64;
     let mut err_checked_with_state = 0u64;
+    let mut conc_overlapped = false;
     let mut inconclusive: Option<String> = None;
 
     'ops: for (idx, op) in ops.iter().enumerate() {
@@ -932,6 +1321,130 @@ async fn run_scenario(sc: Value) -> Outcome {
                 continue;
             }
             _ => {}
+        }
+        if name == "concurrent" {
+            // ---- one step of overlapping calls, judged by linearizability (fn judge_concurrent)
+            let schedule = op["schedule"].as_str().unwrap_or("poll_first");
+            let mut cc: Vec<(Call, Option<SessionDescription>)> = vec![];
+            for c in op["calls"].as_array().unwrap_or(&empty) {
+                let Some(call) = call_of(c) else { continue };
+                let src = c["src"].as_str().unwrap_or(match call {
+                    Call::SetLocal(_) => "own",
+                    _ => "partner",
+                });
+                let edit = c["edit"].as_str().unwrap_or("none");
+                let desc = match call {
+                    Call::SetLocal(t) => w.desc_for(true, t, src, edit).await,
+                    Call::SetRemote(t) => w.desc_for(false, t, src, edit).await,
+                    _ => None,
+                };
+                if slot_of(call).is_some() && desc.is_none() {
+                    inconclusive = Some(format!("harness could not produce a description for op {idx} ({})", call.name()));
+                    break 'ops;
+                }
+                if let Call::SetRemote(_) = call {
+                    w.last_remote_sent = desc.clone();
+                }
+                cc.push((call, desc));
+            }
+            if cc.len() < 2 {
+                continue;
+            }
+            let before = snapshot(&pc);
+            if St::of(before.state) != st {
+                violations.push((
+                    format!("state_moved_between_calls:from={},to={}", st.name(), St::of(before.state).name()),
+                    "signaling state changed while no monitored call was running".into(),
+                    json!({"op_index": idx}),
+                ));
+                st = St::of(before.state);
+            }
+            let counters: Vec<Arc<AtomicU32>> = cc.iter().map(|_| Arc::new(AtomicU32::new(0))).collect();
+            let futs: Vec<CallFut> = cc
+                .iter()
+                .zip(counters.iter())
+                .map(|((call, desc), n)| call_future(&pc, *call, desc.clone(), n.clone()))
+                .collect();
+            let mut degraded = false;
+            let Some(results) = run_schedule(schedule, futs, &mut degraded).await else {
+                inconclusive = Some(format!("watchdog: overlapping calls of op {idx} did not all return"));
+                break 'ops;
+            };
+            let after = snapshot(&pc);
+            let got = St::of(after.state);
+            let watched = St::of(*sig_rx.borrow());
+            if watched != got {
+                violations.push((
+                    "watch_disagrees:call=concurrent".into(),
+                    "subscribe_signaling_state() and signaling_state() report different states".into(),
+                    json!({"op_index": idx, "watch": watched.name(), "getter": got.name()}),
+                ));
+            }
+            let calls: Vec<ConcCall> = cc
+                .into_iter()
+                .zip(results)
+                .zip(counters.iter())
+                .map(|(((call, desc), result), n)| ConcCall { call, desc, result, pending: n.load(Ordering::Relaxed) })
+                .collect();
+            let mut aux = vec![];
+            let (vs, orders) = judge_concurrent(st, &calls, &before, &after, &mode, &mut aux);
+            let suspended = calls.iter().filter(|c| c.pending > 0).count();
+            bump(&mut out.counts, "concurrent_steps");
+            bump(&mut out.counts, &format!("concurrent_schedule:{schedule}"));
+            if degraded {
+                bump(&mut out.counts, "concurrent_poll_first_fell_back_to_join");
+            }
+            if suspended > 0 {
+                conc_overlapped = true;
+                bump(&mut out.counts, "concurrent_steps_with_a_suspended_call");
+                bump(&mut out.counts, &format!("concurrent_overlapped:{}", sc["mode"].as_str().unwrap_or("?")));
+            } else {
+                bump(&mut out.counts, "concurrent_steps_trivial_no_pending");
+            }
+            for c in &calls {
+                *out.counts.entry("concurrent_pending_polls_total".to_string()).or_insert(0) += c.pending as u64;
+                if c.pending > 0 {
+                    out.seen.push((
+                        "suspending_call".into(),
+                        format!("{} {}@{}", sc["mode"].as_str().unwrap_or("?"), c.call.name(), st.name()),
+                    ));
+                }
+                bump(&mut out.counts, &format!("calls:{}", c.call.name()));
+                bump(&mut out.counts, if c.result.is_ok() { "calls_ok" } else { "calls_err" });
+            }
+            {
+                let mut sorted: Vec<&ConcCall> = calls.iter().collect();
+                sorted.sort_by_key(|c| c.call.name());
+                out.seen.push((
+                    "concurrent_outcome".into(),
+                    format!(
+                        "{}@{}={}->{}",
+                        sorted.iter().map(|c| c.call.name()).collect::<Vec<_>>().join("+"),
+                        st.name(),
+                        sorted.iter().map(|c| if c.result.is_ok() { "ok" } else { "err" }).collect::<Vec<_>>().join("+"),
+                        got.name()
+                    ),
+                ));
+            }
+            for a in aux {
+                bump(&mut out.counts, "aux_concurrent_stored_description_not_last_applied");
+                out.seen.push(("aux_stored_description_not_last_applied".into(), a));
+            }
+            out.trace.push(json!({"i": idx, "concurrent": calls.iter().map(|c| json!({
+                    "call": c.call.name(),
+                    "result": match &c.result { Ok(()) => "ok".to_string(), Err(e) => format!("err: {e}") },
+                    "pending_polls": c.pending,
+                    "argument": desc_brief(&c.desc)})).collect::<Vec<_>>(),
+                "schedule": schedule, "fsm_state": st.name(), "state_after": got.name(),
+                "stored_local": desc_brief(&after.local), "stored_remote": desc_brief(&after.remote),
+                "consistent_orders": orders}));
+            for (k, wh, mut wi) in vs {
+                wi["op_index"] = json!(idx);
+                wi["schedule"] = json!(schedule);
+                violations.push((k, wh, wi));
+            }
+            st = got; // later calls are judged against reality
+            continue;
         }
         let Some(call) = call_of(op) else { continue };
         let src = op["src"].as_str().unwrap_or(match call {
@@ -1121,7 +1634,11 @@ async fn run_scenario(sc: Value) -> Outcome {
         out.seen.push(("desc_source".into(), s.clone()));
     }
     out.seen.push(("final_state".into(), st.name().to_string()));
-    out.nontrivial = ok_transitions >= 1 && err_checked_with_state >= 1;
+    out.nontrivial = if ops.iter().any(|o| o["op"] == "concurrent") {
+        conc_overlapped
+    } else {
+        ok_transitions >= 1 && err_checked_with_state >= 1
+    };
     *out.counts.entry("ok_state_transitions_total".to_string()).or_insert(0) += ok_transitions;
     w.shutdown().await;
     drop(held_socket);
@@ -1165,6 +1682,12 @@ fn prefix_ops(prefix: &str) -> Vec<Value> {
             op_json(Call::CreateAnswer, None, "none"),
             so(SdpType::Answer),
         ],
+        // states reached WITHOUT the pc having gathered (its first transport set-up is still ahead)
+        "hlo_helper" => vec![op_json(Call::SetLocal(SdpType::Offer), Some("helper"), "none")],
+        // … and the ordinary ways into the two offer states
+        "hlo_own" => vec![op_json(Call::CreateOffer, None, "none"), so(SdpType::Offer)],
+        "hro" => vec![sr(SdpType::Offer)],
+        "hro_nogather" => vec![op_json(Call::SetRemote(SdpType::Offer), Some("partner"), "no_conn")],
         "connected_offerer" => vec![
             json!({"op": "gather"}),
             op_json(Call::CreateOffer, None, "none"),
@@ -1296,6 +1819,177 @@ fn random_program(rng: &mut Rng, max_len: usize) -> Value {
     sc
 }
 
+// ---- concurrent programs
+
+/// The calls that are `async fn` in rustrtc (the only ones that can park with another call running).
+const ASYNC_CALLS: [Call; 5] = [
+    Call::CreateOffer,
+    Call::CreateAnswer,
+    Call::SetRemote(SdpType::Offer),
+    Call::SetRemote(SdpType::Answer),
+    Call::SetRemote(SdpType::Pranswer),
+];
+
+const CONC_PREFIXES: [&str; 7] =
+    ["fresh", "hlo_helper", "hro_nogather", "hlo_own", "hro", "negotiated_offerer", "negotiated_answerer"];
+
+fn conc_op(schedule: &str, calls: Vec<Value>) -> Value {
+    json!({"op": "concurrent", "schedule": schedule, "calls": calls})
+}
+
+/// Default description source of a call inside a concurrent step that follows `prefix`:
+/// the pc must get descriptions it has not produced by gathering itself where the prefix avoided
+/// gathering, otherwise the usual valid ones.
+fn conc_call_json(c: Call, prefix: &str) -> Value {
+    match c {
+        Call::SetLocal(_) if prefix == "fresh" || prefix == "hlo_helper" => op_json(c, Some("helper"), "none"),
+        _ => op_json(c, None, "none"),
+    }
+}
+
+/// rustrtc's lock-order inversion between `create_offer` (local → remote description lock) and the
+/// SRTP-mode background `setup_sdes` (remote → local; runs as soon as the direct transport is up
+/// and both descriptions are stored) blocks two threads for good and is outside this property
+/// (see `create_offer_guarded`).  A `join`ed step in which create_offer runs while a set_* call
+/// completes the transport set-up walks right into it, so in SRTP mode such pairs are only run
+/// under `poll_first` with two calls: there the parked call cannot finish its set-up while the
+/// other call runs.
+fn srtp_deadlock_risk(mode: &str, calls: &[Call]) -> bool {
+    mode == "srtp" && calls.contains(&Call::CreateOffer) && calls.iter().any(|c| slot_of(*c).is_some())
+}
+
+/// Every ordered pair (async call, any call) under `poll_first` and every ordered pair of async
+/// calls under `join`, after every prefix, in one mode, with valid descriptions.
+fn enumerate_concurrent(mode: &str, out: &mut Vec<Value>) {
+    for prefix in CONC_PREFIXES {
+        for a in ASYNC_CALLS {
+            for b in ALPHABET {
+                let mut ops = prefix_ops(prefix);
+                ops.push(conc_op("poll_first", vec![conc_call_json(a, prefix), conc_call_json(b, prefix)]));
+                out.push(json!({"class": "conc_enum", "mode": mode, "prefix": prefix,
+                    "media": media_json("a"), "peer_media": media_json("a"), "ops": ops}));
+            }
+            for b in ASYNC_CALLS {
+                if srtp_deadlock_risk(mode, &[a, b]) {
+                    continue; // both orders of the pair are in the poll_first part above
+                }
+                let mut ops = prefix_ops(prefix);
+                ops.push(conc_op("join", vec![conc_call_json(a, prefix), conc_call_json(b, prefix)]));
+                out.push(json!({"class": "conc_enum", "mode": mode, "prefix": prefix,
+                    "media": media_json("a"), "peer_media": media_json("a"), "ops": ops}));
+            }
+        }
+    }
+}
+
+fn random_call(rng: &mut Rng, model: St, bias_allowed: u64) -> (Call, Option<&'static str>, &'static str) {
+    let call = if rng.chance(bias_allowed, 10) {
+        let allowed: Vec<Call> = ALPHABET
+            .iter()
+            .copied()
+            .filter(|c| *c != Call::Close && fsm(model, *c).is_some())
+            .collect();
+        if allowed.is_empty() { *rng.pick(&ALPHABET) } else { *rng.pick(&allowed) }
+    } else {
+        let c = *rng.pick(&ALPHABET);
+        if c == Call::Close && rng.chance(2, 3) { *rng.pick(&ALPHABET) } else { c }
+    };
+    let edit = if rng.chance(3, 4) {
+        "none"
+    } else if rng.chance(1, 8) {
+        "no_conn"
+    } else {
+        *rng.pick(&EDITS)
+    };
+    match call {
+        Call::SetLocal(_) => {
+            let src = match rng.below(10) {
+                0..=4 => "own",
+                5 => "partner",
+                6..=8 => "helper",
+                _ => "same",
+            };
+            (call, Some(src), edit)
+        }
+        Call::SetRemote(_) => {
+            let src = match rng.below(10) {
+                0..=5 => "partner",
+                6 => "own",
+                7 => "helper",
+                _ => "same",
+            };
+            (call, Some(src), edit)
+        }
+        _ => (call, None, "none"),
+    }
+}
+
+/// A random sequential prefix (one of the fixed prefixes plus 0..=3 random calls) followed by one
+/// concurrent step of `2..=max_calls` calls, the first of which is usually an async one.
+fn random_concurrent(rng: &mut Rng, max_calls: usize, schedules: &[&str]) -> Value {
+    // measured: only SRTP-mode calls on a connection that has not gathered yet really suspend
+    // (start_direct / build_description wait for the first local candidate); the other modes are
+    // kept for the day that changes, the bulk goes where calls overlap
+    let mode = if rng.chance(6, 10) { "srtp" } else { *rng.pick(&MODES) };
+    let medias: &[&str] = if mode == "webrtc" {
+        &["a", "v", "av", "aa", "ad", "Av", "avd"]
+    } else {
+        &["a", "v", "av", "aa", "Av", "aV"]
+    };
+    let media = *rng.pick(medias);
+    let peer_media = if rng.chance(8, 10) { media } else { *rng.pick(medias) };
+    let prefix = match rng.below(20) {
+        0..=6 => "fresh",
+        7..=12 => "hlo_helper",
+        13..=14 => "hro_nogather",
+        _ => *rng.pick(&CONC_PREFIXES),
+    };
+    let mut ops = prefix_ops(prefix);
+    let mut model = match prefix {
+        "hlo_helper" | "hlo_own" => St::HaveLocalOffer,
+        "hro" | "hro_nogather" => St::HaveRemoteOffer,
+        _ => St::Stable,
+    };
+    let extra = if rng.bool() { 0 } else { rng.below(4) };
+    for _ in 0..extra {
+        let (call, src, edit) = random_call(rng, model, 8);
+        if let Some(n) = fsm(model, call) {
+            model = n;
+        }
+        ops.push(op_json(call, src, edit));
+    }
+    let n = rng.range(2, max_calls as u64) as usize;
+    let mut calls = vec![];
+    let mut picked: Vec<Call> = vec![];
+    for i in 0..n {
+        let (mut call, mut src, mut edit) = random_call(rng, model, 6);
+        if i + 1 < n && rng.chance(8, 10) && !ASYNC_CALLS.contains(&call) {
+            // a call that can park goes first
+            let allowed: Vec<Call> = ASYNC_CALLS.iter().copied().filter(|c| fsm(model, *c).is_some()).collect();
+            call = if allowed.is_empty() || rng.chance(1, 4) { *rng.pick(&ASYNC_CALLS) } else { *rng.pick(&allowed) };
+            src = match call {
+                Call::SetRemote(_) => Some(*rng.pick(&["partner", "partner", "helper", "same"])),
+                _ => None,
+            };
+            edit = "none";
+        }
+        if mode == "srtp" && n > 2 && call == Call::CreateOffer {
+            call = Call::CreateAnswer; // see srtp_deadlock_risk
+            src = None;
+            edit = "none";
+        }
+        picked.push(call);
+        calls.push(op_json(call, src, edit));
+    }
+    let mut schedule = *rng.pick(schedules);
+    if srtp_deadlock_risk(mode, &picked) {
+        schedule = "poll_first";
+    }
+    ops.push(conc_op(schedule, calls));
+    json!({"class": "conc_random", "mode": mode, "prefix": prefix,
+        "media": media_json(media), "peer_media": media_json(peer_media), "ops": ops})
+}
+
 /// Hand-directed programs for the mechanisms the code reading pointed at (each also reachable by
 /// the random generator; these make the quick tier independent of luck).
 fn directed() -> Vec<Value> {
@@ -1423,13 +2117,16 @@ pub fn run(args: &Args) -> i32 {
     let mut report = Report::new(
         args,
         "exploration",
-        "a program is non-trivial when at least one call returned Ok and moved the JSEP state AND at least one call \
+        "a sequential program is non-trivial when at least one call returned Ok and moved the JSEP state AND at least one call \
          returned Err while the connection had transceivers and either a stored description or a non-stable state \
-         (so the before/after snapshot comparison had something to lose)",
+         (so the before/after snapshot comparison had something to lose); a concurrent program (one step of overlapping \
+         calls) is non-trivial only when at least one of the overlapping rustrtc futures returned Poll::Pending at least \
+         once (counted by a poll wrapper), i.e. another call really ran while it was suspended",
     );
     report.assume("descriptions are produced by rustrtc itself (own / partner / helper connections) and then edited; the SDP text parser is not part of this property");
     report.assume("the background ICE gatherer may rewrite candidate lines / port / c= of the stored local description at any time; such differences are not attributed to a failed call");
     report.assume("mid value 65535 is avoided (known decoder panic, property C07)");
+    report.assume("overlapping calls are judged by linearizability: the results and the final state must match SOME sequential order of the calls; states reported while calls are in flight are not judged; a call returning Err(Internal) (open known finding: transport set-up fails after the commit point) may or may not have taken effect");
     report.max_samples = 4;
 
     let threads = std::thread::available_parallelism().map(|n| n.get()).unwrap_or(8).min(16);
@@ -1463,6 +2160,23 @@ pub fn run(args: &Args) -> i32 {
         Tier::Quick => (4usize, 3usize, 3usize, 2000usize, 14usize),
         Tier::Thorough => (5, 5, 4, 20000, 30),
     };
+    let (n_conc_random, conc_max_calls, conc_schedules): (usize, usize, &[&str]) = match args.tier {
+        Tier::Quick => (1500, 2, &["poll_first", "poll_first", "join"]),
+        Tier::Thorough => (20000, 3, &["poll_first", "poll_first", "join"]),
+    };
+    let n_conc_random = args.opt("--conc-random").and_then(|s| s.parse().ok()).unwrap_or(n_conc_random);
+    let conc_max_calls = args.opt("--conc-calls").and_then(|s| s.parse().ok()).unwrap_or(conc_max_calls).clamp(2, 3);
+    // `--conc-spawn`: one tokio task per call, i.e. real thread parallelism.  NOT part of a tier:
+    // on the unchanged crate it (rarely, ~1 in 3000 steps) shows that the state check and the
+    // publication of the new state are two separate operations on a watch channel, so two calls
+    // on two threads can both pass the check (e.g. two set_remote(answer) both Ok from
+    // have-local-offer) – a thread-level race that no await point is involved in and that cannot
+    // be reproduced deterministically.  The tiers overlap calls at await points only.
+    let conc_schedules: &[&str] = if args.has_flag("--conc-spawn") {
+        &["poll_first", "join", "spawn", "spawn"]
+    } else {
+        conc_schedules
+    };
     let enum_len_main = args.opt("--enum-len").and_then(|s| s.parse().ok()).unwrap_or(enum_len_main);
     let n_random = args.opt("--random").and_then(|s| s.parse().ok()).unwrap_or(n_random);
     enumerate("webrtc", "fresh", enum_len_main, &mut scenarios);
@@ -1480,9 +2194,20 @@ pub fn run(args: &Args) -> i32 {
         let mut r = base.fork(i as u64 + 1);
         scenarios.push(random_program(&mut r, rand_len));
     }
+    let n_before_conc = scenarios.len();
+    for mode in MODES {
+        enumerate_concurrent(mode, &mut scenarios);
+    }
+    let n_conc_enum = scenarios.len() - n_before_conc;
+    for i in 0..n_conc_random {
+        let mut r = base.fork(1_000_000 + i as u64);
+        scenarios.push(random_concurrent(&mut r, conc_max_calls, conc_schedules));
+    }
     report.extra.insert(
         "plan".into(),
         json!({"enumerated": n_enum, "directed": n_directed, "random": n_random,
+               "concurrent_enumerated": n_conc_enum, "concurrent_random": n_conc_random,
+               "concurrent_calls_per_step_max": conc_max_calls, "concurrent_schedules": conc_schedules,
                "enum_bound": {"webrtc_fresh": enum_len_main, "srtp_fresh": enum_len_other, "rtp_fresh": enum_len_other, "negotiated_prefixes": enum_len_neg},
                "alphabet": ALPHABET.iter().map(|c| c.name()).collect::<Vec<_>>()}),
     );
@@ -1494,6 +2219,8 @@ pub fn run(args: &Args) -> i32 {
     let mut violators: Vec<(Value, Outcome)> = vec![];
     let mut stalled = false;
     let mut received = 0usize;
+    // programs that were started and have not returned (what is left here after a stall is stuck)
+    let in_flight: std::sync::Mutex<BTreeMap<usize, Value>> = std::sync::Mutex::new(BTreeMap::new());
     {
         let report = &mut report;
         let enum_done = &mut enum_done;
@@ -1502,10 +2229,14 @@ pub fn run(args: &Args) -> i32 {
         let received = &mut received;
         rt.block_on(async {
             use futures::stream::StreamExt;
-            let mut st = futures::stream::iter(scenarios.into_iter().map(|sc| async move {
+            let in_flight = &in_flight;
+            let mut st = futures::stream::iter(scenarios.into_iter().enumerate().map(|(no, sc)| async move {
                 let sc2 = sc.clone();
+                in_flight.lock().unwrap().insert(no, sc.clone());
                 let h = tokio::spawn(run_scenario(sc2));
-                match h.await {
+                let r = h.await;
+                in_flight.lock().unwrap().remove(&no);
+                match r {
                     Ok(o) => (sc, Ok(o)),
                     Err(e) => (sc, Err(format!("scenario task failed: {e}"))),
                 }
@@ -1561,9 +2292,13 @@ pub fn run(args: &Args) -> i32 {
         report.note(format!(
             "run stalled: {missing} program(s) never returned (a thread blocked inside rustrtc); counted inconclusive"
         ));
-        for _ in 0..missing {
+        let stuck: Vec<Value> = in_flight.lock().unwrap().values().cloned().collect();
+        for sc in stuck.iter().take(4) {
+            report.note(format!("program that never returned: {sc}"));
+        }
+        for i in 0..missing {
             report.record(
-                &json!({"stalled": true}),
+                stuck.get(i).unwrap_or(&json!({"stalled": true})),
                 None,
                 Verdict::Inconclusive("program never returned: thread blocked inside rustrtc (suspected lock-order deadlock)".into()),
             );
@@ -1576,12 +2311,26 @@ pub fn run(args: &Args) -> i32 {
     }
     report.exhaustive = Some(enum_done == n_enum);
     report.note(format!(
-        "{total} programs: {n_enum} enumerated (all sequences up to the bound, valid descriptions), {n_directed} directed, {n_random} random"
+        "{total} programs: {n_enum} enumerated (all sequences up to the bound, valid descriptions), {n_directed} directed, {n_random} random, \
+         {n_conc_enum} concurrent enumerated (pairs) + {n_conc_random} concurrent random"
     ));
+    let conc_total = report.counters.get("concurrent_steps").copied().unwrap_or(0);
+    let conc_overlapped = report.counters.get("concurrent_steps_with_a_suspended_call").copied().unwrap_or(0);
+    report.note(format!(
+        "concurrent steps run: {conc_total}; in {conc_overlapped} of them at least one rustrtc future returned Pending (the others are sequential in effect)"
+    ));
+    let conc_planned = n_conc_enum + n_conc_random;
     if stalled {
         std::mem::forget(rt); // dropping would join the blocked worker threads
     } else {
         rt.shutdown_timeout(Duration::from_secs(5));
     }
-    report.finish((total as u64) * 9 / 10, 50)
+    let code = report.finish((total as u64) * 9 / 10, 50);
+    if code == 0 && conc_planned >= 200 && conc_overlapped < 50 {
+        eprintln!(
+            "BROKEN-RUN property=C09 only {conc_overlapped} of {conc_total} concurrent steps had a call that really suspended (min 50)"
+        );
+        return 2;
+    }
+    code
 }
